@@ -175,10 +175,11 @@ impl<S: Spec> LifeMachine<S> {
             ops.push(OpDef::CloneReplace);
             ops.push(OpDef::CloneFromReplace);
         }
-        if cfg.serde_replace && e.ser.is_some() {
+        // zero-sized elements would be serialised one by one (2^32 units): no serde ops there
+        if cfg.serde_replace && e.ser.is_some() && !e.zst {
             ops.push(OpDef::SerdeReplace);
         }
-        if cfg.serde_twin && e.ser.is_some() {
+        if cfg.serde_twin && e.ser.is_some() && !e.zst {
             ops.push(OpDef::SerdeTwin);
         }
         let twin = Self::initial_twin(&cfg);
